@@ -53,6 +53,18 @@ func analyseAppFields(c *core.Ctx, f *appDBFacts) []*appField {
 					gets = append(gets, a)
 				}
 			}
+			// a loader written as a call of a helper that reads the key and fills the cell it is
+			// given: loadUint64(startHeightPath, &appDB.startHeight)
+			for _, g := range gets {
+				if g.Site.Common.IsInvoke() {
+					continue
+				}
+				for _, a := range g.Site.Common.Args {
+					if fa, ok := a.(*ssa.FieldAddr); ok && fieldNameOf(fa) == d && isAppDBPtr(fa.X.Type()) {
+						af.Loaders = append(af.Loaders, g)
+					}
+				}
+			}
 			for _, b := range fn.Blocks {
 				for _, in := range b.Instrs {
 					var val ssa.Value
@@ -371,7 +383,7 @@ func checkVolatile(c *core.Ctx, rule string) {
 	writesIn := func(field string, fns ...*ssa.Function) bool {
 		for _, w := range c.FieldWrites(bc, field) {
 			for _, fn := range fns {
-				if fn != nil && (w.Fn == fn) {
+				if fn != nil && (w.Fn == fn || c.GroupRoot(w.Fn) == fn) {
 					return true
 				}
 			}
@@ -384,7 +396,7 @@ func checkVolatile(c *core.Ctx, rule string) {
 			for _, ref := range *r.Addr.Referrers() {
 				if call, ok := ref.(*ssa.Call); ok && strings.HasPrefix(core.CalleeName(&call.Call), "sync/atomic.Store") {
 					for _, fn := range fns {
-						if r.Fn == fn {
+						if r.Fn == fn || (fn != nil && c.GroupRoot(r.Fn) == fn) {
 							return true
 						}
 					}
@@ -429,7 +441,7 @@ func checkVolatile(c *core.Ctx, rule string) {
 			// (`if f == nil { f = make(…) }`) initialises once and keeps the previous block's content
 			lazy, nW := true, 0
 			for _, w := range c.FieldWrites(bc, fld) {
-				if w.Fn != begin && w.Fn != commit && w.Fn != calc {
+				if root := c.GroupRoot(w.Fn); w.Fn != begin && w.Fn != commit && w.Fn != calc && root != begin && root != commit && root != calc {
 					continue
 				}
 				nW++
